@@ -141,6 +141,7 @@ class Reaching:
 
   def __init__(self, cfg, edge_ok=None):
     self.cfg = cfg
+    self.consts = {}           # module-level names bound to literal tables (set by the owner: FuncCtx)
     self.mutated = mutated_names(cfg.func)
     self.gen = {n: defs_of(n, cfg.func) for n in cfg.nodes}
     self.IN = {n: {} for n in cfg.nodes}
@@ -210,6 +211,18 @@ class Reaching:
           seq = sub(clone(d.value), d.node, depth - 1, nn3)
           if isinstance(seq, (ast.Tuple, ast.List)) and d.index < len(seq.elts) and not any(isinstance(x, ast.Starred) for x in seq.elts):
             return seq.elts[d.index]
+          # a, b, c = (E(col) for col in ('x', 'y', 'z')): the element for the literal at the target's position
+          if isinstance(seq, (ast.GeneratorExp, ast.ListComp)) and len(seq.generators) == 1 and not seq.generators[0].ifs \
+              and isinstance(seq.generators[0].target, ast.Name):
+            it = seq.generators[0].iter
+            if isinstance(it, (ast.Tuple, ast.List)) and d.index < len(it.elts):
+              tv, lit = seq.generators[0].target.id, it.elts[d.index]
+
+              def subv(x_):
+                if isinstance(x_, ast.Name) and x_.id == tv and isinstance(x_.ctx, ast.Load):
+                  return clone(lit)
+                return _map_children(x_, subv)
+              return subv(clone(seq.elt))
         if d is None and pathenv is not None and at is node and e.id in pathenv and depth > 0 and e.id not in rd.mutated:
           # several definitions reach, but on the path under consideration the last one is known
           pd, penv = pathenv[e.id]
@@ -217,6 +230,8 @@ class Reaching:
             saved = pathenv
             return rd.expand(pd.node, pd.value, depth - 1, keep, aliases, penv)[0]
         ds = rd.defs_at(at, e.id)
+        if not ds and e.id in rd.consts and depth > 0:
+          return clone(rd.consts[e.id])         # a module-level table of literals
         if d is None and len(ds) > 1 and depth > 0 and e.id not in rd.mutated:
           # `r = None` on one path, a value on the other, and the use is guarded by `r is not None` (possibly through an
           # alias w = r): only the value definition is live here
@@ -297,6 +312,8 @@ def fold(e):
   if not isinstance(e, ast.AST):
     return e
   e = _map_children(e, fold)
+  if isinstance(e, ast.IfExp) and isinstance(e.test, ast.Constant):
+    return e.body if e.test.value else e.orelse           # a conditional with a literal test (after inlining a helper)
   if isinstance(e, ast.Subscript) and isinstance(e.value, ast.DictComp) and len(e.value.generators) == 1:
     # {k: V(k) for k in IT}[K]  ->  V(K)   (K in IT, else the subscript raises)
     gen = e.value.generators[0]
